@@ -55,6 +55,15 @@ class World:
         if kind == "iarr":
             vs = [s.int_var(-1, 1) for _ in range(_size(shape))]
             return (IntArray1D(vs) if len(shape) == 1 else IntArray2D(vs, shape)), "int", shape
+        if kind == "barrc":
+            # an array whose elements are comparison nodes (compound elements: operators must not look inside them)
+            p, q = [s.int_var(0, 1) for _ in range(_size(shape))], [s.int_var(0, 1) for _ in range(_size(shape))]
+            vs = [(x <= y) for x, y in zip(p, q)]
+            return (BoolArray1D(vs) if len(shape) == 1 else BoolArray2D(vs, shape)), "bool", shape
+        if kind == "iarrc":
+            p, q = [s.int_var(0, 1) for _ in range(_size(shape))], [s.int_var(-1, 0) for _ in range(_size(shape))]
+            vs = [(x - y) for x, y in zip(p, q)]
+            return (IntArray1D(vs) if len(shape) == 1 else IntArray2D(vs, shape)), "int", shape
         raise ValueError(kind)
 
 
@@ -216,11 +225,39 @@ def check_cond(form, kc, kt, kf, shapes):
     return key, None
 
 
+# arrays whose ELEMENTS are compound expressions (an operator applied to them must not look inside): built from two variable arrays
+COMPOUND = {
+    "le": ("iarr", "bool", lambda x, y: x <= y), "lt": ("iarr", "bool", lambda x, y: x < y), "ge": ("iarr", "bool", lambda x, y: x >= y),
+    "gt": ("iarr", "bool", lambda x, y: x > y), "eq": ("iarr", "bool", lambda x, y: x == y), "ne": ("iarr", "bool", lambda x, y: x != y),
+    "and": ("barr", "bool", lambda x, y: x and y), "or": ("barr", "bool", lambda x, y: x or y), "xor": ("barr", "bool", lambda x, y: x != y),
+    "iff": ("barr", "bool", lambda x, y: x == y),
+    "add": ("iarr", "int", lambda x, y: x + y), "sub": ("iarr", "int", lambda x, y: x - y),
+}
+_BUILD = {"le": lambda p, q: p <= q, "lt": lambda p, q: p < q, "ge": lambda p, q: p >= q, "gt": lambda p, q: p > q, "eq": lambda p, q: p == q,
+          "ne": lambda p, q: p != q, "and": lambda p, q: p & q, "or": lambda p, q: p | q, "xor": lambda p, q: p ^ q, "iff": lambda p, q: p == q,
+          "add": lambda p, q: p + q, "sub": lambda p, q: p - q}
+
+
 def check_unary(form, ka, shape):
     w = World()
-    a, va, sa = w.mk(ka, shape)
     key = "%s(%s%s)" % (form, ka, shape)
     need = "bool" if form == "invert" else "int"
+    if ":" in ka:
+        opn = ka.split(":")[1]
+        src, va, pyf = COMPOUND[opn]
+        p, _, _ = w.mk(src, shape)
+        q, _, _ = w.mk(src, shape)
+        a = _BUILD[opn](p, q)
+        try:
+            r = (~a) if form == "invert" else (-a)
+        except Exception as e:
+            return key, dict(kind="valid-operands-rejected", detail="%s raised %s" % (key, e))
+        if not is_array(r) or result_shape(r) != tuple(shape):
+            return key, dict(kind="result-shape", detail="%s returned %s" % (key, type(r).__name__))
+        sem = (lambda x, y: not pyf(x, y)) if form == "invert" else (lambda x, y: -pyf(x, y))
+        e = values_agree(w, list(r.data), sem, [elems(p, shape), elems(q, shape)])
+        return key, (dict(kind="pointwise-meaning", detail="%s: %s" % (key, e)) if e else None)
+    a, va, sa = w.mk(ka, shape)
     try:
         r = (~a) if form == "invert" else (-a)
         raised = None
@@ -426,6 +463,13 @@ def all_cases(tier):
                     if ka in SCALARS and kb in SCALARS and shape != SHAPES[0]:
                         continue
                     cases.append(("bin", form, ka, kb, shape, shape))
+        # arrays with compound elements on either side
+        for shape in [(2,), (1, 2)]:
+            for ka, kb in (("barrc", "barr"), ("barr", "barrc"), ("barrc", "barrc"), ("iarrc", "iarr"), ("iarr", "iarrc"), ("iarrc", "iarrc"),
+                           ("barrc", "bexpr"), ("ilit", "iarrc"), ("blit", "barrc")):
+                if ka in ("blit", "ilit") and form == "then_m":
+                    continue
+                cases.append(("bin", form, ka, kb, shape, shape))
         # shape mismatches
         for ka in ARRS:
             for kb in ARRS:
@@ -447,6 +491,12 @@ def all_cases(tier):
         for shape in SHAPES:
             for ka in ARRS:
                 cases.append(("un", form, ka, shape))
+        for ka in ("barrc", "iarrc"):
+            cases.append(("un", form, ka, (2,)))
+        for shape in [(2,), (1, 2)]:
+            for opn, (src, vk, _) in COMPOUND.items():
+                if vk == ("bool" if form == "invert" else "int"):
+                    cases.append(("un", form, ("barr" if vk == "bool" else "iarr") + ":" + opn, shape))
     return cases
 
 
@@ -500,7 +550,7 @@ def classify(f):
     if c and c[0] in ("bin", "cond", "un"):
         form = c[1]
         kinds = [k for k in c[2:] if isinstance(k, str) and not k.startswith("(")]
-        arr = any(k in ("barr", "iarr") for k in kinds)
+        arr = any(k.split(":")[0] in ("barr", "iarr", "barrc", "iarrc") for k in kinds)
         lit = any(k in ("blit", "blit0") for k in kinds)
         return "%s:%s%s" % (form, "array" if arr else "scalar", "+bool-literal" if lit else "")
     return str(c[0]) if c else "?"
